@@ -117,7 +117,7 @@ val stat : argkind -> fskind
 
 val swhid_of_file : argkind -> pathref -> (obj, crash) sum
 
-val swhid_of_dir : argkind -> ptag -> (obj, crash) sum
+val swhid_of_dir : argkind -> ptag -> bool -> (obj, crash) sum
 
 val swhid_of_git_repo : argkind -> (obj, crash) sum
 
